@@ -626,7 +626,8 @@ class Trellis:
         # Schema 2 became outdated due to the worker actions.
         # Schema 3 became outdated due to a change in step table (dirty field).
         # Schema 4 became outdated due to the v4.0.0 rewrite.
-        return 5
+        # Schema 5 became outdated due to a change in the dependency delete trigger.
+        return 6
 
     @classmethod
     def schema(cls) -> str:
